@@ -395,6 +395,10 @@ def rule_rollover(ck):
                 (isinstance(n, ast.Return) or u(n.targets[0]) == 'out'):
             for k_, v_ in dict_literal_items(n.value):
                 outk[k_] = u(v_)
+    if r:
+        ev = Expander(P, p, keep={'dt'}).expand(r[0].value)
+        if isinstance(ev, ast.Dict):
+            outk = {k_: u(v_) for k_, v_ in dict_literal_items(ev)}
     for k in ('year', 'month', 'day', 'hour', 'minute', 'second'):
         if outk.get(k) != 'dt.' + k:
             probs.append("out['%s'] is %s" % (k, outk.get(k)))
@@ -428,7 +432,7 @@ def rule_rank(ck):
         for call, tup in _event_tuples(P, f):
             o = ck.ob('C19-D2.perrecord', f, call, call)
             lp = in_loop(call, f.node)
-            g = [(t_, pl_) for t_, pl_ in guards_of(call, lp) if not (pl_ is False and 'header' in u(t_))] if lp is not None else None
+            g = [(t_, pl_) for t_, pl_ in guards_of(call, lp) if not (pl_ is False and ('header' in u(t_) or 'first' in u(t_)))] if lp is not None else None
             (o.ok() if lp is not None and not g else o.fail('the event is not appended once per record (%s)' % ('outside the record loop' if lp is None else 'conditional on `%s`' % u(g[0][0]))))
 
 
